@@ -81,8 +81,8 @@ Definition dotcanon (content : bytes) : bytes :=
 (* ---- the receiving side: lines up to LF; ".CRLF" ends the block; one leading dot is removed ---- *)
 Definition unstuff (line : bytes) : bytes :=
   match line with
-  | 46 :: t => t
-  | _ => line
+  | c :: t => if c =? 46 then t else line
+  | [] => []
   end.
 
 (* wire: remaining bytes; line: current line so far, reversed; acc: decoded content so far.
